@@ -2811,3 +2811,173 @@ func c03R17(c *Ctx, r *Report) {
 			"an operand of reference type keeps that type: the literal beside it and the whole expression become references, and `let y := m + 1;` / `m = m * m;` with m: &'i32 reach QBE as pointer arithmetic on loaded values (\"invalid type for first operand in add\")")
 	}
 }
+
+// ---- C07.R10–R12: mutating method calls, closures, re-borrows -----------------------------------------------
+
+func init() {
+	lateInits = append(lateInits, func() {
+		props["C07"].Quick = append(props["C07"].Quick, c07R10, c07R11, c07R12)
+		props["C07"].Explanation += " (R10) the borrow checker treats a call of a method whose receiver is a mutable reference as a write to the place it is called on. (R11) a closure literal is checked against the live loans: every captured variable is read at the point of the literal, and a captured reference keeps its loans until the end of the scope that holds them. (R12) a reference initialised by borrowing through another reference (`&'r.X`) takes over the loans that reference holds."
+	})
+}
+
+// borrowClause: the case clause of borrowChecker.checkExpr for the HIR node type name.
+func borrowClause(c *Ctx, fn *Fn, typeName string) *ast.CaseClause {
+	var cc *ast.CaseClause
+	ast.Inspect(fn.Decl.Body, func(x ast.Node) bool {
+		if cl, ok := x.(*ast.CaseClause); ok && cc == nil {
+			for _, t := range caseTypes(fn.Info(), cl) {
+				if nt := namedOf(t); nt != nil && nt.Obj().Name() == typeName {
+					cc = cl
+				}
+			}
+		}
+		return true
+	})
+	return cc
+}
+
+func c07R10(c *Ctx, r *Report) {
+	const rule = "C07.R10"
+	r.Describe(rule, "hir/analysis borrowChecker.checkExpr, case *hir.CallExpr: a branch guarded by a predicate that reads MethodInfo.Receiver and ReferenceType.Mutable calls checkWriteTarget (or checkAccess with accessWrite) on the selector's base")
+	fn := c.LookupFn(pkgHIRAn, "(*borrowChecker).checkExpr")
+	wt := c.LookupFn(pkgHIRAn, "(*borrowChecker).checkWriteTarget")
+	if !r.Anchor(rule, fn != nil && wt != nil, "hir/analysis checkExpr / checkWriteTarget") {
+		return
+	}
+	cc := borrowClause(c, fn, "CallExpr")
+	if !r.Anchor(rule, cc != nil, "borrowChecker.checkExpr: case *hir.CallExpr") {
+		return
+	}
+	info := fn.Info()
+	readsReceiverMutability := func(f *types.Func) bool {
+		hf := c.FnOf(f)
+		if hf == nil || hf.Decl == nil || hf.Decl.Body == nil {
+			return false
+		}
+		recv, mut := false, false
+		ast.Inspect(hf.Decl.Body, func(x ast.Node) bool {
+			if sel, ok := x.(*ast.SelectorExpr); ok {
+				if sel.Sel.Name == "Receiver" {
+					recv = true
+				}
+				if sel.Sel.Name == "Mutable" {
+					mut = true
+				}
+			}
+			return true
+		})
+		return recv && mut
+	}
+	ok := false
+	for _, st := range cc.Body {
+		ast.Inspect(st, func(x ast.Node) bool {
+			ifs, isIf := x.(*ast.IfStmt)
+			if !isIf {
+				return true
+			}
+			guard := false
+			ast.Inspect(ifs.Cond, func(y ast.Node) bool {
+				if cl, isCall := y.(*ast.CallExpr); isCall {
+					if f := callee(info, cl); f != nil && readsReceiverMutability(f) {
+						guard = true
+					}
+				}
+				return true
+			})
+			if guard && nodeCalls(info, ifs.Body, wt.Obj) != nil {
+				ok = true
+			}
+			return true
+		})
+	}
+	r.Check(ok, rule, fn.Name(), "a &'-receiver method call writes its receiver", c.pos(cc.Pos()),
+		"a method call is checked like a field read, whatever the receiver of the method is: `let r: &Counter = &c; c.inc(); io::Println(r.Value);` with `fn (c: &'Counter) inc()` is accepted and the shared reference sees its referent change (prints 1)")
+}
+
+func c07R11(c *Ctx, r *Report) {
+	const rule = "C07.R11"
+	r.Describe(rule, "hir/analysis borrowChecker.checkExpr, case *hir.FuncLit: the clause ranges over the literal's Captures; in that loop a capture reaches checkRead / checkAccess, and a reference capture reaches a helper that assigns into a scope's lastUse map")
+	fn := c.LookupFn(pkgHIRAn, "(*borrowChecker).checkExpr")
+	rd := c.LookupFn(pkgHIRAn, "(*borrowChecker).checkRead")
+	if !r.Anchor(rule, fn != nil && rd != nil, "hir/analysis checkExpr / checkRead") {
+		return
+	}
+	cc := borrowClause(c, fn, "FuncLit")
+	if !r.Anchor(rule, cc != nil, "borrowChecker.checkExpr: case *hir.FuncLit") {
+		return
+	}
+	info := fn.Info()
+	writesLastUse := func(f *types.Func) bool {
+		hf := c.FnOf(f)
+		if hf == nil || hf.Decl == nil || hf.Decl.Body == nil {
+			return false
+		}
+		hit := false
+		ast.Inspect(hf.Decl.Body, func(x ast.Node) bool {
+			if as, ok := x.(*ast.AssignStmt); ok {
+				for _, l := range as.Lhs {
+					if ix, ok := ast.Unparen(l).(*ast.IndexExpr); ok && strings.HasSuffix(exprStr(ix.X), ".lastUse") {
+						hit = true
+					}
+				}
+			}
+			return true
+		})
+		return hit
+	}
+	reads, holds := false, false
+	for _, st := range cc.Body {
+		ast.Inspect(st, func(x ast.Node) bool {
+			rs, ok := x.(*ast.RangeStmt)
+			if !ok || !strings.HasSuffix(exprStr(rs.X), ".Captures") {
+				return true
+			}
+			for _, cl := range callsIn(rs.Body, false) {
+				f := callee(info, cl)
+				if f == nil {
+					continue
+				}
+				if f == rd.Obj {
+					reads = true
+				}
+				if writesLastUse(f) {
+					holds = true
+				}
+			}
+			return true
+		})
+	}
+	r.Check(reads, rule, fn.Name(), "a captured variable is read where the closure is made", c.pos(cc.Pos()),
+		"a closure literal is checked in isolation and its captures are not accesses of the enclosing function: `let r: &'i32 = &'x; let f := fn() -> i32 { return x; };` copies x while it is mutably borrowed")
+	r.Check(holds, rule, fn.Name(), "a captured reference keeps its loans while the closure can run", c.pos(cc.Pos()),
+		"the loans of a reference end at its last textual use even when a closure captured it: `let r: &'i32 = &'x; let f := fn() { r = 5; }; x = 3; f(); io::Println(x);` is accepted and prints 5 — x is written through r after the loan was considered over")
+}
+
+func c07R12(c *Ctx, r *Report) {
+	const rule = "C07.R12"
+	r.Describe(rule, "hir/analysis borrowChecker.checkBorrowInit: besides the branch for a non-reference base there is a branch that ranges over b.bindings[<base of the borrowed place>] and calls addBinding for the declared name")
+	fn := c.LookupFn(pkgHIRAn, "(*borrowChecker).checkBorrowInit")
+	ab := c.LookupFn(pkgHIRAn, "(*borrowChecker).addBinding")
+	if !r.Anchor(rule, fn != nil && ab != nil, "hir/analysis checkBorrowInit / addBinding") {
+		return
+	}
+	info := fn.Info()
+	ok := false
+	ast.Inspect(fn.Decl.Body, func(x ast.Node) bool {
+		rs, isRange := x.(*ast.RangeStmt)
+		if !isRange {
+			return true
+		}
+		ix, isIx := ast.Unparen(rs.X).(*ast.IndexExpr)
+		if !isIx || !strings.HasSuffix(exprStr(ix.X), ".bindings") || !strings.HasSuffix(exprStr(ix.Index), ".base") {
+			return true
+		}
+		if nodeCalls(info, rs.Body, ab.Obj) != nil {
+			ok = true
+		}
+		return true
+	})
+	r.Check(ok, rule, fn.Name(), "a borrow through a reference takes over that reference's loans", c.pos(fn.Decl.Pos()),
+		"a reference initialised with `&'r.X` records no loan because its base is a reference: after r's last use `let a: &'i32 = &'r.X; p.X = 5; a = 7;` is accepted and p.X is written through a while p is assigned directly")
+}
